@@ -176,3 +176,13 @@ Proof.
   - now apply rewriter_target_secure.
   - now apply rewriter_target_starts_slash.
 Qed.
+
+(* Tie to the source: the only classes in pygopherd/handlers that define
+   isrequestsecure / isrequestforme are BaseHandler (both) and HTMLURLHandler
+   (isrequestsecure) — exactly what Model/Handlers.is_for_me assumes.  A new override
+   anywhere changes Gen/Secure.v and breaks this lemma. *)
+Lemma overriders_as_modelled :
+  list_eqb str_eqb secure_overriders
+    (map lit ["base.BaseHandler.isrequestforme"; "base.BaseHandler.isrequestsecure";
+              "url.HTMLURLHandler.isrequestsecure"]%string) = true.
+Proof. vm_compute. reflexivity. Qed.
